@@ -71,14 +71,20 @@ PROPS = {
         trusted_base=['Clean(dict) holds on entry of every setter (re-established by every contracted writer)'],
     ),
     'C15': dict(
-        level='other',
-        contracts=[],
+        level='proof',
+        contracts=['C15'],
         frames=[],
-        technique='bounded run-time contract check (round trip through set_cookie -> Set-Cookie -> Cookie -> get_cookie; exhaustive '
-                  'single-position tampering of signed cookies with an instrumented unpickler); pyvc contracts on _lscmp/cookie_decode pending',
-        explanation='BOUNDED: cookie round trip and forgery rejection checked on the real code over the listed value/secret/tamper space.',
-        level_text='Bounded contract check of the real functions (never counted as proved).',
-        level_note='HMAC unforgeability is an assumption in any case; SimpleCookie transport is library code.',
+        technique='deductive: VCs from the real AST of _lscmp, cookie_is_encoded, cookie_decode (pickle.loads dominated by the signature '
+                  'equality), cookie_encode (+ inverse lemma from library axioms), get_cookie; bounded run-time check of the SimpleCookie '
+                  'transport and of exhaustive single-position tampering (instrumented unpickler) as replay harness',
+        explanation='pickle.loads is reached only on paths where data = "!" sig "?" msg and sig == b64(HMAC_md5(key, msg)), with argument '
+                    'b64decode(msg); every other path returns None without deserialising; _lscmp(a,b) <=> a == b; decode(encode(d,k),k) == d '
+                    'from the library axioms; get_cookie returns a signed payload only through the verified pair whose name equals the key.',
+        level_text='Proof of verify-before-unpickle and of the signed round trip for all inputs, relative to the cryptographic assumption '
+                   'A-HMAC (listed); the unsigned transport through http.cookies.SimpleCookie is library code and is decided bounded only.',
+        level_note='A-HMAC (no forgery without the key) is an assumption, not provable. hmac/base64/pickle are uninterpreted with the stated axioms. '
+                   'Unsigned round trip through SimpleCookie: bounded; two known findings (empty value, code points above U+00FF).',
+        trusted_base=['A-HMAC', 'pickle/base64 inverse axioms', 'sum/zip/generator-expression semantics as stated'],
     ),
     'C16': dict(
         level='proof',
